@@ -228,8 +228,153 @@ func runCase(cs poolsim.Case) (coqOut string, failOut *failure, stOut stats, rOu
 		return
 	}
 	var rejected []types.TransactionID // ids of transactions that are not in the pool
+	// the pool as last read (the reference for "first pool operation after a tip change")
+	var prev1 []types.Transaction
+	var prev2 []types.V2Transaction
+	// firstOp: after a tip change during which no pool method was called, one read API is the first
+	// pool operation; its answer must agree with the listing read right after it
+	firstOp := func(g *rng.R, api string) {
+		cand1, cand2 := prev1, prev2
+		if lr := r.LastReverted(); lr != nil {
+			// transactions of the last reverted block may have re-entered the pool
+			cand1 = append(append([]types.Transaction(nil), cand1...), lr.Block.Transactions...)
+			cand2 = append(append([]types.V2Transaction(nil), cand2...), lr.Block.V2Transactions()...)
+		}
+		type ans struct {
+			id    types.TransactionID
+			v2    bool
+			found bool
+			same  bool
+		}
+		var answers []ans
+		var got1 []types.Transaction
+		var got2 []types.V2Transaction
+		var want []types.Hash256
+		switch api {
+		case "lookup":
+			for _, x := range cand1 {
+				t, ok, pan := r.Lookup1(x.ID())
+				if pan {
+					report("c14-lookup-panic", "PoolTransaction panicked as the first pool operation after a tip change")
+					return
+				}
+				answers = append(answers, ans{x.ID(), false, ok, ok && t.ID() == x.ID()})
+			}
+			for _, x := range cand2 {
+				t, ok, pan := r.Lookup2(x.ID())
+				if pan {
+					report("c14-lookup-panic", "V2PoolTransaction panicked as the first pool operation after a tip change")
+					return
+				}
+				answers = append(answers, ans{x.ID(), true, ok, ok && t.ID() == x.ID()})
+			}
+		case "partial-block":
+			for _, x := range cand1 {
+				want = append(want, x.MerkleLeafHash())
+			}
+			for _, x := range cand2 {
+				want = append(want, x.MerkleLeafHash())
+			}
+			if len(want) == 0 {
+				return
+			}
+			func() {
+				defer func() {
+					if p := recover(); p != nil {
+						report("c14-read-panic", fmt.Sprint("TransactionsForPartialBlock panicked as the first pool operation after a tip change: ", p))
+					}
+				}()
+				got1, got2 = r.CM.TransactionsForPartialBlock(want)
+			}()
+		case "parents":
+			func() {
+				defer func() {
+					if p := recover(); p != nil {
+						report("c14-read-panic", fmt.Sprint("UnconfirmedParents / V2TransactionSet panicked as the first pool operation after a tip change: ", p))
+					}
+				}()
+				if len(cand1) > 0 {
+					got1 = r.CM.UnconfirmedParents(cand1[len(cand1)-1])
+				} else if len(cand2) > 0 {
+					if _, set, err := r.CM.V2TransactionSet(r.CM.Tip(), cand2[len(cand2)-1].DeepCopy()); err == nil && len(set) > 0 {
+						got2 = set[:len(set)-1]
+					}
+				}
+			}()
+		}
+		r.Quiet = false
+		if fail != nil {
+			return
+		}
+		// the listing, read right after
+		v1, v2 := r.Pool()
+		in1, in2 := map[types.TransactionID]bool{}, map[types.TransactionID]bool{}
+		for _, x := range v1 {
+			in1[x.ID()] = true
+		}
+		for _, x := range v2 {
+			in2[x.ID()] = true
+		}
+		st["first-op:"+api]++
+		for _, a := range answers {
+			listed := in1[a.id]
+			if a.v2 {
+				listed = in2[a.id]
+			}
+			switch {
+			case a.found && !listed:
+				report("c14-lookup-phantom", fmt.Sprintf("as the first pool operation after a tip change the lookup (v2=%v) finds a transaction that the listing read right after does not contain (confirmed or invalidated by the new blocks)", a.v2))
+			case !a.found && listed:
+				report("c14-lookup-missed", fmt.Sprintf("as the first pool operation after a tip change the lookup (v2=%v) reports absence of a transaction that the listing read right after contains (re-added after the reorg)", a.v2))
+			case a.found && !a.same:
+				report("c14-lookup-wrong-transaction", "the lookup returned a different transaction")
+			}
+		}
+		if api == "partial-block" {
+			// (the leaf hash of a v2 transaction covers its proofs: a requested hash is only expected back
+			// if the copy the pool lists now still has it)
+			now := map[types.Hash256]bool{}
+			for _, x := range v1 {
+				now[x.MerkleLeafHash()] = true
+			}
+			for _, x := range v2 {
+				now[x.MerkleLeafHash()] = true
+			}
+			n := 0
+			asked := map[types.Hash256]bool{}
+			for _, h := range want {
+				if now[h] && !asked[h] {
+					n++
+				}
+				asked[h] = true
+			}
+			ok := len(got1)+len(got2) == n
+			for _, x := range got1 {
+				ok = ok && in1[x.ID()] && asked[x.MerkleLeafHash()]
+			}
+			for _, x := range got2 {
+				ok = ok && in2[x.ID()] && asked[x.MerkleLeafHash()]
+			}
+			if !ok {
+				report("c14-partial-block-wrong-transactions", fmt.Sprintf("as the first pool operation after a tip change TransactionsForPartialBlock returned %d+%d transactions; %d of the requested hashes belong to transactions of the listing read right after", len(got1), len(got2), n))
+			}
+		}
+		if api == "parents" {
+			for _, x := range got1 {
+				if !in1[x.ID()] {
+					report("c14-parents-not-pooled", "as the first pool operation after a tip change UnconfirmedParents returned a transaction that the listing read right after does not contain")
+				}
+			}
+			for _, x := range got2 {
+				if !in2[x.ID()] {
+					report("c14-parents-not-pooled", "as the first pool operation after a tip change V2TransactionSet returned a parent that the listing read right after does not contain")
+				}
+			}
+		}
+	}
 	lookups := func(g *rng.R) {
 		v1, v2 := r.Pool()
+		prev1, prev2 = v1, v2
 		in1, in2 := map[types.TransactionID]bool{}, map[types.TransactionID]bool{}
 		for _, x := range v1 {
 			in1[x.ID()] = true
@@ -599,15 +744,28 @@ func runCase(cs poolsim.Case) (coqOut string, failOut *failure, stOut stats, rOu
 		g := rng.New(stp.Seed ^ cs.Seed)
 		switch stp.Kind {
 		case "chain":
+			api := []string{"listing", "lookup", "partial-block", "parents", "lookup"}[g.Intn(5)]
+			before := r.Tip
+			r.Quiet = api != "listing"
 			o := r.Chain(stp.Op)
 			if o.Err {
 				st["chain-op-errors"]++
 			}
+			if r.Quiet && r.Tip != before && fail == nil {
+				firstOp(g, api)
+			}
+			r.Quiet = false
 		case "mine":
 			if b, ok := r.MineOnly(); ok {
+				api := []string{"listing", "lookup", "partial-block", "parents", "lookup"}[g.Intn(5)]
+				r.Quiet = api != "listing"
 				if r.Adopt(b) {
 					st["mined-blocks-adopted"]++
+					if r.Quiet && fail == nil {
+						firstOp(g, api)
+					}
 				}
+				r.Quiet = false
 			}
 		case "submit":
 			if s := r.Fabricate(g, stp.Flavor); s != nil {
